@@ -2,6 +2,9 @@
 
 from __future__ import annotations
 
+import contextlib
+import logging
+
 import numpy as np
 from hypothesis import strategies as st
 
@@ -34,7 +37,20 @@ RULE = (
     "a run with maxiters = n and no time limit reproduces model, objective and histories bit for bit.  large cells: a "
     "few problems with 60000 cells and 1e4..3e4 stored counts (block edges 16384 / 16385) per run through the same "
     "body.  guesses also with entries 1e-30 / 1e-12 (not zeros) and identity-like factors (exact, or perturbed by "
-    "1e-9..1e-4).  Non-trivial: data has a zero and a count >= 2, rank >= 2 (early-exit: run ended before maxiters)."
+    "1e-9..1e-4).  degenerate cells (all algorithms, both holders): shapes with one / several / only modes of size 1, "
+    "rank 1 (40 %), exactly one / two / three positive counts, through the same body.  presentation cells: the reference "
+    "request (Python ints, keywords, int64 subscripts, fresh F-ordered float64 arrays) against the same request with the "
+    "rank / the iteration limits / lbfgsMem / print levels as NumPy integer scalars (int8..uint64), flags and tolerances "
+    "as np.bool_ / np.float64, every optional argument passed positionally in the documented order, sparse subscripts "
+    "in int32 / int8 / int16 / uint8 / uint16 / uint32 / uint64, the shape as list / array / tuple of NumPy ints, data or "
+    "guess held without copy in read-only arrays, built from strided views, guess factors given as a tuple / C-ordered / "
+    "without weights: model, objective and every history bit for bit; float32 counts: same model and objective to a "
+    "single-precision bound (1e-5); in between, a request cp_apr rejects (guess of another rank, rank 0, unknown "
+    "algorithm / init string, negative guess entry) leaves data and guess as they were.  reporting cells: the quiet "
+    "call against the same call with printitn in {1,2,3,5,1000}, printinneritn in {1,2,3,7} and / or the root logger at "
+    "DEBUG (NullHandler): model, objective, KKT / inner-iteration / function-evaluation histories bit for bit (fnVals "
+    "is recorded only when printing and is not compared).  Non-trivial: data has a zero and a count >= 2, rank >= 2 "
+    "(early-exit: run ended before maxiters; degenerate: a singleton mode, rank 1 or <= 3 counts)."
 )
 ASSUMPTIONS = [
     "objective compared within 1e-9 x (sum |x log m| + sum m) (+ exact match for -inf); pyttb evaluates sum m "
@@ -49,8 +65,13 @@ ASSUMPTIONS = [
     "[1e-16, 1e-3] (1e-300 makes x/eps overflow: not an admissible safeguard); kappa in [1e-10, 0.1], kappatol in "
     "[1e-16, 1e-3] (MU's slackness offset is not a descent step: kappa = 1 with kappatol = 0.1 can end below the guess)",
     "data has at least one positive count; N >= 2 (tt_loglikelihood unfolds along mode 1)",
-    "float32 data is left out: pyttb computes in the data's precision where a float32 array meets a Python scalar, so "
-    "the 1e-9 objective tolerance would not be justified",
+    "float32 data is left out of the ordinary cells: pyttb computes in the data's precision where a float32 array meets "
+    "a Python scalar, so the 1e-9 objective tolerance would not be justified; the presentation cells run float32 counts "
+    "(exactly representable) with every tolerance widened to 1e-5 and demand agreement with the float64 request to 1e-5",
+    "presentation / reporting comparisons are bit for bit: cp_apr is deterministic given data, guess and options, and "
+    "none of the presentations changes a value, the stored order of the nonzeros or the memory layout pyttb computes on "
+    "(its constructors bring every input to F order); a presentation whose constructor does not yield the same tensor "
+    "is labelled not-constructible and left to the constructor's own property",
     "a dense tensor grown by assignment and a sparse tensor grown by assignment hold float64 values whatever they "
     "started from (pyttb converts), so integer dtypes are combined with the other provenance states only",
     "MU with a guess of the tiny-entry class that puts less than epsDivZero on a positive count: the likelihood "
@@ -80,16 +101,33 @@ SPARSE_PROV = ["ctor", "ctor", "np-shape", "explicit-zeros", "explicit-zeros", "
 GUESS_PROV = ["ctor", "ctor", "ctor", "copy", "normalized", "absorbed", "arranged", "permuted", "redistributed"]
 
 
+DEGENERATE_SHAPES = [[1, 1], [1, 1, 1], [1, 3], [3, 1], [1, 4], [2, 1], [1, 2, 3], [2, 1, 3], [3, 2, 1], [1, 1, 4], [1, 4, 1],
+                     [4, 1, 1], [2, 2], [2, 3], [2, 3, 2]]
+DEGENERATE_SHAPES_4 = [[1, 1, 1, 1], [1, 2, 1, 3], [2, 1, 1, 1], [1, 1, 1, 3]]
+
+
 @st.composite
-def _apr_case(draw, tier, alg, holder):
+def _apr_case(draw, tier, alg, holder, degenerate=False):
     mo = 3 if tier == "quick" else 4
-    shape = draw(gen.shapes(tier, min_order=2, max_order=mo, max_size=4, max_cells=24 if tier == "quick" else 48))
+    if degenerate:
+        # extents at their minimum: modes of size 1 (one, several, all of them) next to larger ones, rank 1, and
+        # exactly one / two / three positive counts (the draws of the ordinary cells are left as they were)
+        shape = list(draw(st.sampled_from(DEGENERATE_SHAPES if tier == "quick" else DEGENERATE_SHAPES + DEGENERATE_SHAPES_4)))
+        pattern = draw(st.sampled_from(["one-nonzero", "one-nonzero", "two-nonzeros", "two-nonzeros", "three-nonzeros", "mixed"]))
+    else:
+        shape = draw(gen.shapes(tier, min_order=2, max_order=mo, max_size=4, max_cells=24 if tier == "quick" else 48))
+        pattern = None
     n = ref.prod(shape)
     N = len(shape)
-    pattern = draw(st.sampled_from(["mixed", "mixed", "dense-ish", "dense-ish", "empty-slice", "zero-fibres", "one-nonzero"]))
+    if pattern is None:
+        pattern = draw(st.sampled_from(["mixed", "mixed", "dense-ish", "dense-ish", "empty-slice", "zero-fibres", "one-nonzero"]))
     A = np.zeros(shape)
     if pattern == "one-nonzero":
         A.flat[draw(st.integers(0, n - 1))] = draw(COUNT)
+    elif pattern in ("two-nonzeros", "three-nonzeros"):
+        kk = min(n, 2 if pattern == "two-nonzeros" else 3)
+        for pos in draw(st.lists(st.integers(0, n - 1), min_size=kk, max_size=kk, unique=True)):
+            A.flat[pos] = draw(COUNT)
     else:
         p_nz = 0.9 if pattern == "dense-ish" else 0.6
         mask = draw(st.lists(st.floats(0, 1), min_size=n, max_size=n))
@@ -115,7 +153,7 @@ def _apr_case(draw, tier, alg, holder):
         dscale = 25 if dtype == "uint8" else 1000
     A = A * dscale
     dprov = draw(st.sampled_from(DENSE_PROV if holder == "dense" else SPARSE_PROV))
-    rank = draw(st.sampled_from([1, 2, 2, 3, 3, 4]))
+    rank = draw(st.sampled_from([1, 1, 2, 2, 3] if degenerate else [1, 2, 2, 3, 3, 4]))
     gclass = draw(st.sampled_from(["positive", "positive", "positive", "some-zeros", "some-zeros", "zero-row", "zero-row",
                                    "random", "random", "some-tiny", "identity-like"]))
     pv = st.one_of(st.sampled_from([0.5, 1.0]), st.floats(0.05, 2.0), st.floats(0.05, 2.0))
@@ -360,15 +398,29 @@ def _same_guess(a, b):
             and all(x.shape == y.shape and np.array_equal(x, y) for x, y in zip(a[1], b[1])))
 
 
-def _run(ctx, case, data, init, maxiters, what, options=None, alg=None):
+# cp_apr's optional arguments in their documented order, with the documented defaults
+DOCUMENTED_ORDER = [("algorithm", "mu"), ("stoptol", 1e-4), ("stoptime", 1e6), ("maxiters", 1000), ("init", "random"),
+                    ("maxinneriters", 10), ("epsDivZero", 1e-10), ("printitn", 1), ("printinneritn", 0), ("kappa", 0.01),
+                    ("kappatol", 1e-10), ("epsActive", 1e-8), ("mu0", 1e-5), ("precompinds", True), ("inexact", True),
+                    ("lbfgsMem", 3)]
+
+
+def _run(ctx, case, data, init, maxiters, what, options=None, alg=None, rank=None, positional=False):
     """one cp_apr call on the given (reused) data and guess objects; returns (model, guess used, info)"""
     snap = _snapshot_data(data)
     gsnap = _snapshot_guess(init)
     opts = _options(case) if options is None else options
+    rank = case["rank"] if rank is None else rank
     if not isinstance(init, ttb.ktensor):
         np.random.seed(case["np_seed"])
-    with ctx.sut(what):
-        out = ttb.cp_apr(data, case["rank"], algorithm=alg or case["alg"], init=init, maxiters=maxiters, **opts)
+    if positional:
+        given = dict(opts, algorithm=alg or case["alg"], init=init, maxiters=maxiters)
+        args = [given.get(name, default) for name, default in DOCUMENTED_ORDER]
+        with ctx.sut(what):
+            out = ttb.cp_apr(data, rank, *args)
+    else:
+        with ctx.sut(what):
+            out = ttb.cp_apr(data, rank, algorithm=alg or case["alg"], init=init, maxiters=maxiters, **opts)
     ctx.require(isinstance(out, tuple) and len(out) == 3, "returns-(model,guess,output)", type(out).__name__)
     M, Minit, info = out
     ctx.require(isinstance(M, ttb.ktensor) and isinstance(info, dict) and isinstance(Minit, ttb.ktensor), "result-types")
@@ -386,7 +438,7 @@ def _per_iteration_lengths(info):
     return out
 
 
-def _check_result(ctx, case, A, M, info, maxiters, l0, s0, min_len=1):
+def _check_result(ctx, case, A, M, info, maxiters, l0, s0, min_len=1, obj_rtol=1e-9):
     shape = tuple(case["shape"])
     ctx.check(tuple(M.shape) == shape and M.ncomponents == case["rank"], "model-rank-and-shape",
               f"{tuple(M.shape)} R={M.ncomponents}")
@@ -408,7 +460,7 @@ def _check_result(ctx, case, A, M, info, maxiters, l0, s0, min_len=1):
         ctx.check(obj == want or (np.isnan(obj) and np.isnan(want)), "objective-is-loglikelihood-of-returned-model",
                   f"{obj!r} vs {want!r}")
     else:
-        ctx.check(abs(obj - want) <= 1e-9 * scale, "objective-is-loglikelihood-of-returned-model",
+        ctx.check(abs(obj - want) <= obj_rtol * scale, "objective-is-loglikelihood-of-returned-model",
                   f"{obj!r} vs {want!r} (scale {scale:.3g})")
     kkt = np.ravel(np.asarray(info["kktViolations"], dtype=float))
     ctx.check(bool(np.all(kkt >= 0)), "kkt-violations-nonnegative", kkt)
@@ -425,7 +477,7 @@ def _check_result(ctx, case, A, M, info, maxiters, l0, s0, min_len=1):
         # update is the documented safeguarded step, not an EM step, and need not increase the likelihood
         ctx.label("mu-guess-below-epsDivZero-at-a-count")
     elif np.isfinite(l0):
-        ok = (want >= l0 - 1e-9 * (s0 + (scale if np.isfinite(scale) else 0.0))) if not np.isnan(want) else False
+        ok = (want >= l0 - obj_rtol * (s0 + (scale if np.isfinite(scale) else 0.0))) if not np.isnan(want) else False
         ctx.check(ok, "at-least-as-likely-as-guess", f"result {want!r} < guess {l0!r}")
     return len(kkt)
 
@@ -803,6 +855,339 @@ def sequence(ctx, case):
     ctx.check(_same_outcome(r1, r3), "repeated-call-reproduces-first-call", _outcome_info(r1, r3))
 
 
+# --------------------------------------------------------------------------
+# round 4 (a): extents at their minimum - modes of size 1, rank 1, exactly one / two / three positive counts
+# --------------------------------------------------------------------------
+
+
+def _degenerate_body(ctx, case):
+    A = _true_array(case)
+    nnz = int(np.count_nonzero(A))
+    ones = sum(1 for s_ in case["shape"] if s_ == 1)
+    ctx.label("holder-" + case["holder"], "positive-counts=" + (str(nnz) if nnz <= 3 else ">=4"),
+              "singleton-modes=" + ("all" if ones == len(case["shape"]) else str(ones)),
+              "one-count-and-rank>=2" if nnz == 1 and case["rank"] >= 2 else "other",
+              "singleton-mode-or-rank1" if ones or case["rank"] == 1 else "no-singleton-extent")
+    try:
+        _body(ctx, case)
+    finally:
+        ctx.nt = bool(ones or case["rank"] == 1 or nnz <= 3)
+
+
+for _alg, (_q, _t) in {"mu": (16, 80), "pdnr": (14, 70), "pqnr": (10, 50)}.items():
+    for _holder in ("dense", "sparse"):
+        cell(f"C11/{_alg}/degenerate-{_holder}",
+             strategy=(lambda a, h: lambda tier: _apr_case(tier, a, h, degenerate=True))(_alg, _holder),
+             quick=_q, thorough=_t, shards=(1, 2))(_degenerate_body)
+
+
+# --------------------------------------------------------------------------
+# round 4 (b): the same request in two presentations / quiet and verbose gives the same answer
+# --------------------------------------------------------------------------
+
+FULL_KEYS = ("nViolations", "fnEvals", "nZeros", "nTotalIters")  # (fnVals is only recorded when printing; clocks are not judged)
+
+
+def _full_outcome(M, info):
+    return _outcome(M, info) + tuple(np.ravel(np.asarray(info[key], dtype=float)).copy() if key in info else None
+                                     for key in FULL_KEYS)
+
+
+def _same_full(a, b):
+    return _same_outcome(a[:5], b[:5]) and len(a) == len(b) and all(
+        (x is None and y is None) or (x is not None and y is not None and np.array_equal(x, y, equal_nan=True))
+        for x, y in zip(a[5:], b[5:]))
+
+
+def _full_info(a, b):
+    extra = "; ".join(f"{key} {x.tolist() if x is not None else None} vs {y.tolist() if y is not None else None}"
+                      for key, x, y in zip(FULL_KEYS, a[5:], b[5:]))
+    return _outcome_info(a, b) + "; inner " + f"{a[4].tolist()} vs {b[4].tolist()}; " + extra
+
+
+ARG_PRESENTATIONS = ["rank-np", "rank-np", "limits-np", "flags-np", "positional"]
+DATA_PRESENTATIONS = {"sparse": ["subs-dtype", "subs-dtype", "shape-form", "data-readonly-nocopy", "data-strided", "data-float32"],
+                      "dense": ["shape-form", "data-readonly-nocopy", "data-strided", "data-float32"]}
+GUESS_PRESENTATIONS = ["guess-tuple", "guess-c-order-nocopy", "guess-readonly-nocopy", "guess-strided", "guess-default-weights"]
+NP_INTS = ["int64", "int32", "uint8", "int8", "uint16", "uint64", "int16", "uint32"]
+F32_RTOL = 1e-5  # ~ 100 single-precision roundings, relative to the property's own scale
+
+
+@st.composite
+def _presentation_case(draw, tier, alg):
+    holder = draw(st.sampled_from(["dense", "sparse", "sparse"]))
+    c = draw(_apr_case(tier, alg, holder))
+    c["dprov"] = "ctor"  # the reference presentation: the constructor's favourite forms
+    c.pop("zsubs", None)
+    if c["gprov"] == "random":  # (factors were drawn positive for this class)
+        c["gclass"] = "positive"
+    c["gprov"] = "ctor"
+    c["maxiters"] = min(c["maxiters"], 4)
+    # one presentation of the scalar arguments, one of the data, one of the guess
+    c["pres"] = [draw(st.sampled_from(ARG_PRESENTATIONS)), draw(st.sampled_from(DATA_PRESENTATIONS[holder])),
+                 draw(st.sampled_from(GUESS_PRESENTATIONS))]
+    c["npint"] = draw(st.sampled_from(NP_INTS))
+    c["subs_dtype"] = draw(st.sampled_from(["int32", "int32", "uint8", "uint16", "uint32", "uint64", "uint64", "int16", "int8"]))
+    c["shape_form"] = draw(st.sampled_from(["list", "array", "array-int32", "tuple-of-int32", "tuple-of-uint8"]))
+    # a request cp_apr rejects, issued on the same objects between the reference call and the presented calls
+    c["rejected"] = draw(st.sampled_from([None, None, "guess-of-another-rank", "rank-zero", "unknown-algorithm",
+                                          "guess-with-negative-entry", "unknown-init-string"]))
+    return c
+
+
+def _strided_copy_of(a):
+    """a non-contiguous view (every second element along every axis of a larger buffer) holding the same values"""
+    big = np.zeros(tuple(2 * n for n in a.shape), dtype=a.dtype)
+    view = big[tuple(slice(None, None, 2) for _ in a.shape)]
+    view[...] = a
+    return view
+
+
+def _present(case, A, pres, ref_data, ref_init):
+    """(data, init, rank, maxiters, options, positional, float32?) for one presentation of the reference request;
+    None when the presentation cannot be constructed (constructors are judged by other properties)"""
+    shape = tuple(case["shape"])
+    R, k = case["rank"], case["maxiters"]
+    npi = np.dtype(case["npint"]).type
+    dtype = np.dtype(case["dtype"])
+    data, init, rank, maxiters, opts, positional, f32 = ref_data, ref_init, R, k, dict(_options(case)), False, False
+    sparse = case["holder"] == "sparse"
+    fm = [np.array(f, dtype=float).reshape(n, R) for f, n in zip(case["factors"], shape)]
+    w = np.array(case["weights"], dtype=float)
+    try:
+        if pres == "rank-np":
+            rank = npi(R)
+        elif pres == "limits-np":
+            maxiters = npi(k)
+            for key in ("maxinneriters", "lbfgsMem", "printitn", "printinneritn"):
+                if key in opts:
+                    opts[key] = npi(opts[key])
+        elif pres == "flags-np":
+            for key in ("precompinds", "inexact"):
+                if key in opts:
+                    opts[key] = np.bool_(opts[key])
+            for key in ("stoptol", "epsDivZero", "kappa", "kappatol", "epsActive", "mu0", "stoptime"):
+                if key in opts:
+                    opts[key] = np.float64(opts[key])
+        elif pres == "positional":
+            positional = True
+        elif pres.startswith("guess-"):
+            if pres == "guess-tuple":
+                init = ttb.ktensor(tuple(f.copy() for f in fm), w.copy())
+            elif pres == "guess-c-order-nocopy":
+                init = ttb.ktensor([np.ascontiguousarray(f) for f in fm], w.copy(), copy=False)
+            elif pres == "guess-readonly-nocopy":
+                fs = [np.asfortranarray(f.copy()) for f in fm]
+                ww = w.copy()
+                for a in [*fs, ww]:
+                    a.setflags(write=False)
+                init = ttb.ktensor(fs, ww, copy=False)
+            elif pres == "guess-strided":
+                init = ttb.ktensor([_strided_copy_of(f) for f in fm], _strided_copy_of(w))
+            elif pres == "guess-default-weights":
+                init = ttb.ktensor([f.copy() for f in fm]) if bool(np.all(w == 1.0)) else ttb.ktensor([f.copy(order="C") for f in fm], w.copy())
+        else:
+            sdt = np.dtype(case["subs_dtype"]) if pres == "subs-dtype" else np.dtype(int)
+            vdt = np.dtype(np.float32) if pres == "data-float32" else dtype
+            f32 = pres == "data-float32"
+            shp = shape
+            if pres == "shape-form":
+                form = case["shape_form"]
+                shp = (list(shape) if form == "list" else np.array(shape) if form == "array"
+                       else np.array(shape, dtype=np.int32) if form == "array-int32"
+                       else tuple(np.int32(n) for n in shape) if form == "tuple-of-int32" else tuple(np.uint8(n) for n in shape))
+            if sparse:
+                subs, vals = _stored_entries(case, vdt)
+                subs = subs.astype(sdt)
+                if pres == "data-strided":
+                    subs, vals = _strided_copy_of(subs), _strided_copy_of(vals)
+                if pres == "data-readonly-nocopy":
+                    subs.setflags(write=False)
+                    vals.setflags(write=False)
+                    data = ttb.sptensor(subs, vals, shp, copy=False)
+                else:
+                    data = ttb.sptensor(subs, vals, shp)
+            else:
+                a = np.asfortranarray(A.astype(vdt))
+                if pres == "data-strided":
+                    data = ttb.tensor(_strided_copy_of(a))
+                elif pres == "data-readonly-nocopy":
+                    a.setflags(write=False)
+                    data = ttb.tensor(a, copy=False)
+                elif pres == "shape-form":
+                    data = ttb.tensor(a, shp)
+                else:
+                    data = ttb.tensor(a)
+            if tuple(int(x) for x in data.shape) != shape or not np.array_equal(ref.den(data), A):
+                return None
+        if isinstance(init, ttb.ktensor) and init is not ref_init:
+            if tuple(init.shape) != shape or not _same_guess(_snapshot_guess(init), _snapshot_guess(ref_init)):
+                return None
+    except Exception:  # noqa: BLE001  (the constructors are the subject of other properties)
+        return None
+    return data, init, rank, maxiters, opts, positional, f32
+
+
+def _rejected_request(ctx, case, data, init):
+    """a request outside cp_apr's domain on the same data and guess objects: whether it raises is not this property's
+    subject, but when it does the caller's objects are as they were (and the calls that follow are judged as if it
+    had not happened)"""
+    kind = case["rejected"]
+    if kind == "guess-of-another-rank" and not isinstance(init, ttb.ktensor):
+        return  # (with a random guess this is simply another valid request)
+    snap, gsnap = _snapshot_data(data), _snapshot_guess(init)
+    R = case["rank"]
+    kw = dict(algorithm=case["alg"], init=init, maxiters=case["maxiters"], printitn=0)
+    rank = R
+    if kind == "guess-of-another-rank":
+        rank = R + 1
+    elif kind == "rank-zero":
+        rank = 0
+    elif kind == "unknown-algorithm":
+        kw["algorithm"] = "newton"
+    elif kind == "unknown-init-string":
+        kw["init"] = "zeros"
+    elif kind == "guess-with-negative-entry":
+        fm = [np.array(f, dtype=float).reshape(n, R) for f, n in zip(case["factors"], case["shape"])]
+        fm[-1][-1, -1] = -0.5
+        kw["init"] = ttb.ktensor(fm, np.array(case["weights"], dtype=float))
+    try:
+        ttb.cp_apr(data, rank, **kw)
+        ctx.label("ill-formed-request-accepted:" + kind)
+    except Exception:  # noqa: BLE001
+        ctx.label("rejected:" + kind)
+    ctx.check(_same_snapshot(_snapshot_data(data), snap), "data-unchanged-after-rejected-request", kind)
+    ctx.check(_same_guess(_snapshot_guess(init), gsnap), "guess-unchanged-after-rejected-request", kind)
+
+
+def _presentation_body(ctx, case):
+    """The request as the generators usually hand it over (Python ints, keywords, int64 subscripts, fresh F-ordered
+    float64 arrays) and the same request as ordinary callers present it: same model, objective, histories bit for
+    bit (float32 values: to a single-precision bound), and the property's own clauses hold for each."""
+    A = _true_array(case)
+    k = case["maxiters"]
+    data, used = _build_data(case)
+    init = _build_guess(case)
+    _common_labels(ctx, case, A, data, used)
+    ctx.label("holder-" + case["holder"])
+    ctx.nt = True
+    M0, G0, i0 = _run(ctx, case, data, init, k, "cp_apr")
+    l0, s0, _ = _guess_baseline(case, A, G0)
+    _check_result(ctx, case, A, M0, i0, k, l0, s0)
+    r0 = _full_outcome(M0, i0)
+    if case.get("rejected"):
+        _rejected_request(ctx, case, data, init)
+    for pres in case["pres"]:
+        p = _present(case, A, pres, data, init)
+        if p is None:
+            ctx.label("not-constructible:" + pres)
+            continue
+        pdata, pinit, rank, maxiters, opts, positional, f32 = p
+        name = pres + (":" + case["npint"] if pres in ("rank-np", "limits-np") else ":" + case["subs_dtype"] if pres == "subs-dtype"
+                       else ":" + case["shape_form"] if pres == "shape-form" else "")
+        ctx.label("presentation-" + name)
+        M, G, info = _run(ctx, case, pdata, pinit, maxiters, "cp_apr", options=opts, rank=rank, positional=positional)
+        _check_result(ctx, case, A, M, info, k, l0, s0, obj_rtol=F32_RTOL if f32 else 1e-9)
+        r = _full_outcome(M, info)
+        if f32:
+            # float32 holds the counts exactly; demanded is agreement with the float64 request to a single-precision bound
+            ctx.check(_same_model(M, M0, F32_RTOL), "float32-data-gives-the-float64-model-to-single-precision",
+                      f"{_model_info(M)} vs {_model_info(M0)}")
+            sc = max(abs(r0[2]), 1.0) if np.isfinite(r0[2]) else 1.0
+            ctx.check(r[2] == r0[2] or abs(r[2] - r0[2]) <= F32_RTOL * sc or (np.isnan(r[2]) and np.isnan(r0[2])),
+                      "float32-data-gives-the-float64-objective-to-single-precision", f"{r[2]!r} vs {r0[2]!r}")
+        else:
+            ctx.check(_same_full(r, r0), "same-request-in-another-presentation-gives-the-same-result",
+                      pres + ": " + _full_info(r, r0))
+
+
+for _alg, (_q, _t) in {"mu": (16, 80), "pdnr": (14, 70), "pqnr": (10, 50)}.items():
+    cell(f"C11/{_alg}/presentation", strategy=(lambda a: lambda tier: _presentation_case(tier, a))(_alg),
+         quick=_q, thorough=_t, shards=(1, 4))(_presentation_body)
+
+
+@contextlib.contextmanager
+def _root_logger_at_debug(on):
+    """the process has its root logger at DEBUG (with a handler that discards the records); restored afterwards"""
+    if not on:
+        yield
+        return
+    root = logging.getLogger()
+    old_level, old_disable = root.level, root.manager.disable
+    handler = logging.NullHandler()
+    others = list(root.handlers)  # (logging.warning() installs a stderr handler on first use: keep the run quiet)
+    for h in others:
+        root.removeHandler(h)
+    logging.disable(logging.NOTSET)
+    root.setLevel(logging.DEBUG)
+    root.addHandler(handler)
+    try:
+        yield
+    finally:
+        root.removeHandler(handler)
+        for h in others:
+            root.addHandler(h)
+        root.setLevel(old_level)
+        logging.disable(old_disable)
+
+
+@st.composite
+def _reporting_case(draw, tier, alg):
+    holder = draw(st.sampled_from(["dense", "sparse", "sparse"]))
+    c = draw(_apr_case(tier, alg, holder))
+    c["maxiters"] = draw(st.sampled_from([1, 2, 3, 4, 6]))
+    c["reports"] = draw(st.lists(st.fixed_dictionaries(dict(
+        printitn=st.sampled_from([0, 1, 1, 2, 3, 5, 1000]), printinneritn=st.sampled_from([0, 0, 1, 1, 2, 3, 7]),
+        debug=st.sampled_from([False, True, True]))).filter(lambda d: d["printitn"] or d["printinneritn"] or d["debug"]),
+        min_size=2, max_size=3))
+    # a request cp_apr rejects, issued on the same objects (in every provenance state) after the quiet call
+    c["rejected"] = draw(st.sampled_from([None, "guess-of-another-rank", "rank-zero", "unknown-algorithm", "unknown-algorithm",
+                                          "guess-with-negative-entry", "unknown-init-string"]))
+    return c
+
+
+def _reporting_body(ctx, case):
+    """the quiet call (printitn = printinneritn = 0, logging silenced) against the same call with progress reports
+    at several levels and / or the root logger at DEBUG: model, objective, KKT history, inner-iteration and
+    function-evaluation counts bit for bit; the property's clauses hold for every call"""
+    A = _true_array(case)
+    k = case["maxiters"]
+    data, used = _build_data(case)
+    init = _build_guess(case)
+    _common_labels(ctx, case, A, data, used)
+    ctx.label("holder-" + case["holder"])
+    ctx.nt = True
+    quiet = dict(_options(case), printitn=0, printinneritn=0)
+    M0, G0, i0 = _run(ctx, case, data, init, k, "cp_apr", options=quiet)
+    l0, s0, _ = _guess_baseline(case, A, G0)
+    n0 = _check_result(ctx, case, A, M0, i0, k, l0, s0)
+    ctx.label("sweeps=" + (str(n0) if n0 <= 2 else ">=3"), "stopped-early" if n0 < k else "used-all-iterations")
+    r0 = _full_outcome(M0, i0)
+    if case.get("rejected"):
+        _rejected_request(ctx, case, data, init)
+    for rep in case["reports"]:
+        ctx.label(f"report-printitn={rep['printitn']}", f"report-printinneritn={rep['printinneritn']}",
+                  "root-logger-debug" if rep["debug"] else "logging-silenced")
+        opts = dict(quiet, printitn=rep["printitn"], printinneritn=rep["printinneritn"])
+        with _root_logger_at_debug(rep["debug"]):
+            M, G, info = _run(ctx, case, data, init, k, "cp_apr", options=opts)
+        _check_result(ctx, case, A, M, info, k, l0, s0)
+        r = _full_outcome(M, info)
+        printing = bool(rep["printitn"] or rep["printinneritn"])
+        clause = ("result-independent-of-reporting-options" if printing and not rep["debug"] else
+                  "result-independent-of-root-logger-level" if not printing else
+                  "result-independent-of-reporting-options-and-logger-level")
+        ctx.check(_same_full(r, r0), clause, f"printitn={rep['printitn']} printinneritn={rep['printinneritn']} "
+                  f"debug={rep['debug']}: " + _full_info(r, r0))
+        if not isinstance(init, ttb.ktensor):
+            ctx.check(_same_guess(_snapshot_guess(G), _snapshot_guess(G0)), "random-guess-independent-of-reporting")
+
+
+for _alg, (_q, _t) in {"mu": (14, 70), "pdnr": (12, 60), "pqnr": (8, 40)}.items():
+    cell(f"C11/{_alg}/reporting", strategy=(lambda a: lambda tier: _reporting_case(tier, a))(_alg),
+         quick=_q, thorough=_t, shards=(1, 4))(_reporting_body)
+
+
 def _has_zero_row(case):
     return any(not any(row) for f in case["factors"] for row in f)
 
@@ -826,7 +1211,24 @@ def _guess_nearly_zero_at_a_count(case):
     return any(M[tuple(s)] < 1e-6 for s in case["subs"])
 
 
+def _tiny_guess_component_on_every_count(case):
+    """tiny-entry guess class and some component contributes at most 1e-6 of the guess's value at every positive
+    count: MU shrinks it by a constant tiny factor per inner iteration, through the subnormal range"""
+    if case.get("gclass") != "some-tiny":
+        return False
+    R = case["rank"]
+    fm = [np.array(f, dtype=float).reshape(n, R) for f, n in zip(case["factors"], case["shape"])]
+    w = np.array(case["weights"], dtype=float)
+    subs = [s_ for s_, v in zip(case["subs"], case["vals"]) if v > 0]
+    if not subs:
+        return False
+    contrib = np.array([[w[r] * np.prod([fm[n][s_[n], r] for n in range(len(fm))]) for r in range(R)] for s_ in subs])
+    total = contrib.sum(axis=1, keepdims=True)
+    return bool(np.any(np.all(contrib <= 1e-6 * total, axis=0)))
+
+
 PREDICATES = {
+    "tiny_guess_component_on_every_count": _tiny_guess_component_on_every_count,
     "alg_is_pqnr": lambda case: case.get("alg") == "pqnr",
     "sparse_data_stores_explicit_zero": lambda case: case.get("holder") == "sparse" and case.get("dprov") == "explicit-zeros"
     and (len(case.get("zsubs", [])) > 0 or bool(case.get("large"))),
